@@ -7,7 +7,7 @@
    The concrete executable model compared with the code on every run is Model/Index.v. *)
 From Coq Require Import List NArith ZArith Bool Permutation.
 From BE Require Import Model.Scan Model.Build Model.Cursor Proofs.ScanProof Proofs.BuildProof Proofs.Glue Proofs.CursorProof Proofs.Refine Proofs.ConcreteScan.
-From BE Require Model.GoVal Model.Parsers Model.Index Gen.IdsGen Proofs.RoaringProof Proofs.IndexBuildInv Proofs.IndexCorrect Proofs.NonVacuous.
+From BE Require Model.GoVal Model.Parsers Model.Index Gen.IdsGen Proofs.RoaringProof Proofs.IndexBuildInv Proofs.IndexCorrect Proofs.NonVacuous Model.Spec Proofs.SpecBridge.
 Import ListNotations.
 Local Open Scope N_scope.
 
@@ -86,14 +86,75 @@ Theorem C01_kgroups_documents_exact : forall pol thr parsers ds st os q,
     (forall z, In z docs -> exists d, In d ds /\ z = Index.d_id d).
 Proof. intros pol thr parsers. exact (IndexCorrect.retrieve_docs_correct Index.IKGroups pol thr parsers). Qed.
 
+(* END TO END AGAINST THE SPECIFICATION (Model/Spec.v: what an expression and an assigned value DENOTE -- canonical
+   texts / integers --, `hit`, `sat_conj`, `sat_hits`; no ids, no parsers' output, no posting lists), default-container
+   fields under any parser configuration: for any document set accepted by the concrete k-groups builder and any
+   assignment whose values are supported (doc_good / asg_good: values are Go values the model represents exactly,
+   assigned values denote something), the concrete retrieval succeeds, reports no conjunction twice, every
+   indexed conjunction denotes, and a conjunction is reported iff the specification says it is satisfied *)
+Theorem C01_index_exact_against_spec : forall pol thr parsers ds st os q,
+  Index.add_documents false (Index.new_builder Index.IKGroups pol thr parsers) ds = (st, os) ->
+  Forall (eq Index.AddOk) os -> NoDup (map Index.d_id ds) ->
+  (forall d cj, In d ds -> In cj (Index.d_conjs d) -> NoDup (map fst cj)) ->
+  (forall d, In d ds -> SpecBridge.doc_good parsers d) ->
+  (pol <> Index.PolSkip \/ forall d cj, In d ds -> In cj (Index.d_conjs d) -> Spec.conj_sem [] parsers cj <> None) ->
+  NoDup (map fst q) -> SpecBridge.asg_good parsers q ->
+  exists hits,
+    Index.retrieve_hits (Index.build_index st) q = Index.ROk hits /\ NoDup (map snd hits) /\
+    (forall d k cj cid, IndexCorrect.has_conj ds d k cj cid ->
+       Spec.conj_sem [] parsers cj <> None /\
+       forall sc, Spec.conj_sem [] parsers cj = Some sc ->
+         (In cid (map snd hits) <-> Spec.sat_conj [] parsers q sc = Some true)) /\
+    (forall h, In h hits -> fst h = IdsGen.ConjID_DocID (snd h) /\ exists d k cj, IndexCorrect.has_conj ds d k cj (snd h)).
+Proof. intros pol thr parsers. exact (SpecBridge.index_correct_spec Index.IKGroups pol thr parsers). Qed.
+
+(* ... the reported (document, position, size) triples are, as a multiset, exactly the specification's sat_hits *)
+Theorem C01_hits_are_the_specifications : forall pol thr parsers ds st os q,
+  Index.add_documents false (Index.new_builder Index.IKGroups pol thr parsers) ds = (st, os) ->
+  Forall (eq Index.AddOk) os -> NoDup (map Index.d_id ds) ->
+  (forall d cj, In d ds -> In cj (Index.d_conjs d) -> NoDup (map fst cj)) ->
+  (forall d, In d ds -> SpecBridge.doc_good parsers d) ->
+  (pol <> Index.PolSkip \/ forall d cj, In d ds -> In cj (Index.d_conjs d) -> Spec.conj_sem [] parsers cj <> None) ->
+  NoDup (map fst q) -> SpecBridge.asg_good parsers q ->
+  exists hits spec_hits,
+    Index.retrieve_hits (Index.build_index st) q = Index.ROk hits /\
+    Spec.sat_hits [] parsers pol Spec.pl_docok ds q = Some spec_hits /\
+    Permutation (map (fun h : Index.hitrec => SpecBridge.triple (snd h)) hits) spec_hits.
+Proof. intros pol thr parsers. exact (SpecBridge.index_sat_hits Index.IKGroups pol thr parsers). Qed.
+
+(* ... and on documents *)
+Theorem C01_documents_exact_against_spec : forall pol thr parsers ds st os q,
+  Index.add_documents false (Index.new_builder Index.IKGroups pol thr parsers) ds = (st, os) ->
+  Forall (eq Index.AddOk) os -> NoDup (map Index.d_id ds) ->
+  (forall d cj, In d ds -> In cj (Index.d_conjs d) -> NoDup (map fst cj)) ->
+  (forall d, In d ds -> SpecBridge.doc_good parsers d) ->
+  (pol <> Index.PolSkip \/ forall d cj, In d ds -> In cj (Index.d_conjs d) -> Spec.conj_sem [] parsers cj <> None) ->
+  NoDup (map fst q) -> SpecBridge.asg_good parsers q ->
+  exists docs,
+    Index.retrieve (Index.build_index st) q = Index.ROk docs /\
+    (forall d, In d ds ->
+       (In (Index.d_id d) docs <-> exists cj sc, In cj (Index.d_conjs d) /\ Spec.conj_sem [] parsers cj = Some sc /\
+                                                 Spec.sat_conj [] parsers q sc = Some true)) /\
+    (forall z, In z docs -> exists d, In d ds /\ z = Index.d_id d).
+Proof. intros pol thr parsers. exact (SpecBridge.retrieve_docs_correct_spec Index.IKGroups pol thr parsers). Qed.
+
 (* the hypotheses of the end-to-end theorems are met by a concrete document set (3 documents, include and
    exclude expressions, a negative id) and assignment, accepted by the builder, for which the concrete
    retrieval returns a non-empty proper subset of the documents *)
 Example C01_nonvacuous : NonVacuous.ex_ok Index.IKGroups = true /\ NoDup (map Index.d_id NonVacuous.ex_docs).
 Proof. split; [exact NonVacuous.hypotheses_met_kgroups | exact NonVacuous.ex_ids_distinct]. Qed.
 
+Example C01_spec_nonvacuous :
+  (forall d, In d NonVacuous.ex_docs -> SpecBridge.doc_good NonVacuous.ex_parsers d) /\
+  SpecBridge.asg_good NonVacuous.ex_parsers NonVacuous.ex_q /\
+  Spec.sat_hits [] NonVacuous.ex_parsers Index.PolError Spec.pl_docok NonVacuous.ex_docs NonVacuous.ex_q = Some [(1, (0, 1))]%Z.
+Proof. split; [exact NonVacuous.ex_docs_good | split; [exact NonVacuous.ex_q_good | exact NonVacuous.ex_spec_says]]. Qed.
+
 Print Assumptions C01_kgroups_streams_exact.
 Print Assumptions C01_kgroups_index_exact.
 Print Assumptions C01_kgroups_documents_exact.
 Print Assumptions C01_concrete_kgroups_loop_exact.
 Print Assumptions C01_new_cursors_related.
+Print Assumptions C01_index_exact_against_spec.
+Print Assumptions C01_hits_are_the_specifications.
+Print Assumptions C01_documents_exact_against_spec.
